@@ -83,6 +83,7 @@ type xOp struct {
 	First string   `json:"first,omitempty"` // first URL (symbolic ports 1001 https, 1002 https, 1003 http)
 	Locs  []string `json:"locs,omitempty"`  // redirect targets, hop by hop
 	Tag   string   `json:"tag,omitempty"`
+	TLSParts *string `json:"tlsparts,omitempty"` // sys: which of the three tls.* file options are set: subset of "ckt" (certfile, certkeyfile, truststorefile); overrides TLS
 	// src: one option set through up to three sources (config file, environment, command line); Load (and for
 	// strictmode optionally Configure with a plain-http public URL) decides
 	Key       string      `json:"key,omitempty"`       // strictmode | url | didmethods
@@ -152,6 +153,10 @@ func xStartErr(err error) string {
 		class = "tls-off"
 	case strings.Contains(m, "only valid irma-scheme-manager is 'pbdf'"):
 		class = "irma-scheme"
+	case strings.Contains(m, "unable to load node TLS certificate"):
+		class = "tls-cert"
+	case strings.Contains(m, "unable to read trust store"):
+		class = "tls-truststore"
 	case strings.Contains(m, "'url' must be configured"):
 		class = "url:missing"
 	case strings.Contains(m, "invalid 'url'"):
@@ -183,7 +188,21 @@ func xConfigYAML(op xOp, dir string) string {
 	if op.Cache != "" {
 		fmt.Fprintf(&sb, "  cache:\n    maxbytes: %s\n", op.Cache)
 	}
-	if op.TLS {
+	if op.TLSParts != nil {
+		cert, trust := xCertFiles()
+		if *op.TLSParts != "" {
+			sb.WriteString("tls:\n")
+		}
+		if strings.Contains(*op.TLSParts, "c") {
+			fmt.Fprintf(&sb, "  certfile: %s\n", cert)
+		}
+		if strings.Contains(*op.TLSParts, "k") {
+			fmt.Fprintf(&sb, "  certkeyfile: %s\n", cert)
+		}
+		if strings.Contains(*op.TLSParts, "t") {
+			fmt.Fprintf(&sb, "  truststorefile: %s\n", trust)
+		}
+	} else if op.TLS {
 		cert, trust := xCertFiles()
 		fmt.Fprintf(&sb, "tls:\n  certfile: %s\n  certkeyfile: %s\n  truststorefile: %s\n", cert, cert, trust)
 	}
@@ -695,6 +714,11 @@ func xExec(t *testing.T, op xOp, sock **xSock) (line string) {
 			s.bodyN = *op.Body
 		}
 		s.mu.Unlock()
+		defer func() { // later ops (IAM probes of sys rows) get the fixed small body again
+			s.mu.Lock()
+			s.bodyN, s.chunked = -1, false
+			s.mu.Unlock()
+		}()
 		restore := s.install()
 		defer restore()
 		old := client.StrictMode
@@ -1002,12 +1026,21 @@ func xGenerate(seed int64, thorough bool) []xOp {
 				}
 				for c := 0; c < nctor; c++ {
 					n := n
-					op := xOp{Op: "cap", Ctor: []string{"New", "NewWithCache", "NewWithTLSConfig"}[(k+c)%3], Strict: strict, First: origins[k%2] + "/big", Body: &n, Chunked: chunked, Tag: "response-cap"}
+					// every cap op talks to host names of its own: http/client does not close the body of a response it refuses as too
+					// large, so that connection stays counted against SafeHttpTransport.MaxConnsPerHost (5) of its host for good
+					host := func(i, port int) string {
+						sch := "https"
+						if port == 1003 {
+							sch = "http"
+						}
+						return fmt.Sprintf("%s://cap%d-%d.verif.test:%d", sch, k, i, port)
+					}
+					op := xOp{Op: "cap", Ctor: []string{"New", "NewWithCache", "NewWithTLSConfig"}[(k+c)%3], Strict: strict, First: host(0, 1001+k%2) + "/big", Body: &n, Chunked: chunked, Tag: "response-cap"}
 					if !strict && k%3 == 0 {
-						op.First = origins[2] + "/big"
+						op.First = host(0, 1003) + "/big"
 					}
 					for h := 0; h < k%3; h++ {
-						op.Locs = append(op.Locs, origins[(k+h)%2]+"/hop"+strconv.Itoa(h))
+						op.Locs = append(op.Locs, host(h+1, 1001+(k+h)%2)+"/hop"+strconv.Itoa(h))
 					}
 					k++
 					ops = append(ops, op)
@@ -1016,6 +1049,20 @@ func xGenerate(seed int64, thorough bool) []xOp {
 		}
 	}
 	ops = append(ops, xGenSources(r, thorough)...)
+	// 8. (deepening round) the three tls.* file options individually, and spellings of the crypto back-end name
+	for _, parts := range []string{"", "c", "k", "t", "ck", "ct", "kt", "ckt"} {
+		for _, strict := range []bool{true, false} {
+			for _, methods := range [][]string{{"web", "nuts"}, {"web"}} {
+				parts := parts
+				ops = append(ops, xOp{Op: "sys", Strict: strict, URL: "https://nuts.nl", TLSParts: &parts, TLS: strings.ContainsAny(parts, "ck"), Methods: methods, Crypto: "fs", SQL: true, Irma: "pbdf", Tag: "tls-files"})
+			}
+		}
+	}
+	for _, name := range []string{"FS", "Fs", "fs2", "f", "filesystem", "vault", "VAULTKV", "azure", "External"} {
+		for _, strict := range []bool{true, false} {
+			ops = append(ops, xOp{Op: "sys", Strict: strict, URL: "https://nuts.nl", TLS: true, Methods: []string{"web", "nuts"}, Crypto: name, SQL: true, Irma: "pbdf", Tag: "crypto-names"})
+		}
+	}
 	return ops
 }
 
